@@ -48,7 +48,7 @@ pub fn space_text(prop: u8) -> &'static str {
         9 => "all next/next_back/probe call programs of length <= 7 on iter_mut() and (&mut q).into_iter() over n <= 4 elements, with and without priority rewrites, both kinds",
         1 | 2 => "size sweep: every queue size 2..=64 and a dense subset up to 600 x 4 priority patterns x {root to below-min, pop, last leaf to above-max, remove root, pop_if rewriting to below-min, extreme ties}",
         11 => "size sweep: every queue size 2..=1100 x 4 priority patterns x push_decrease of root / second level to below-min, push_increase of the last leaf to above-max, ties with the extremes; and push_increase / push_decrease x 9 offered-priority classes x every target position x n <= 6 x 3 priority patterns x both kinds",
-        13 => "all call programs of length <= 6 on iter/&q/into_iter/drain/sorted over n <= 4, and all 40 adaptor compositions x arguments 0..=n+2 x 6 iterator kinds x n <= 4, both kinds",
+        13 => "all call programs of length <= 6 on iter/&q/into_iter/drain/sorted over n <= 4, and all 42 adaptor compositions x arguments 0..=n+2 x 6 iterator kinds x n <= 4, both kinds",
         _ => "",
     }
 }
